@@ -10,6 +10,7 @@ import Driver.C15
 import Driver.C10
 import Driver.C14
 import Driver.C09
+import Driver.C07
 
 def main (args : List String) : IO UInt32 := do
   let stdin ← IO.getStdin
@@ -26,4 +27,5 @@ def main (args : List String) : IO UInt32 := do
   | ["c10"] => C10Val.main stdin
   | ["c14"] => C14Val.main stdin
   | ["c09"] => C09Val.main stdin
+  | ["c07"] => C07Val.main stdin
   | _ => do IO.eprintln "usage: midriver <trval|entry|...>"; return 2
